@@ -253,6 +253,9 @@ func (p *parser) atomStart() bool {
 		if CoqReserved[t.Text] {
 			return false // a Gallina keyword cannot be used as an identifier
 		}
+		if i := strings.Index(t.Text, "."); i > 0 && CoqReserved[t.Text[:i]] {
+			return false // mod.Add: the first component of a qualified name is lexed as an identifier, i.e. as the keyword
+		}
 		return true
 	case TString, TNum:
 		return true
